@@ -788,7 +788,8 @@ func mkEnum[T comparable](vs []T, literal, ctorPtr bool, r *hx.Rng) (any, string
 // pointer constructors; inputs: members, non-members, equal values of other dynamic types (int64(1) vs 1, named
 // string types), pointers to them.
 func runEnums(o *hx.Out, r *hx.Rng, n int) {
-	cands := []any{"a", "b", "", "c", "A", "aa", "z", "zz", 0, 1, 3, 7, -1, int64(1), int8(-1), uint(3), 1.0, 2.5, float32(1), true, false, myStr("a"), myInt(1)}
+	cands := []any{"a", "b", "", "c", "A", "aa", "z", "zz", 0, 1, 3, 7, -1, int64(1), int8(-1), uint(3), 1.0, 2.5, float32(1), true, false, myStr("a"), myInt(1),
+		0.0, math.Copysign(0, -1), math.NaN(), math.Inf(1), 0.5}
 	for it := 0; it < n; it++ {
 		ctorPtr := r.Chance(30)
 		literal := r.Chance(35)
@@ -817,7 +818,8 @@ func runEnums(o *hx.Out, r *hx.Rng, n int) {
 				members = append(members, v)
 			}
 		case "float64":
-			vs := []float64{hx.Pick(r, []float64{1, 2.5}), 0.5, -1}[:nvals]
+			// IEEE equality: a listed NaN equals nothing, +0 and -0 are the same member
+			vs := []float64{hx.Pick(r, []float64{1, 2.5, 0, math.Copysign(0, -1), math.NaN()}), hx.Pick(r, []float64{0.5, math.Inf(1), math.NaN()}), -1}[:nvals]
 			schema, ctor = mkEnum(vs, literal, ctorPtr, r)
 			for _, v := range vs {
 				members = append(members, v)
